@@ -16,7 +16,10 @@ EXPLANATION = (
     "kind with one of TerminalComma, TerminalEmpty, TerminalSemicolon, TerminalColonColon (the syntactically "
     "optional tokens) - a fifth kind is a violation; (R11.5) merge_use_items / sort_items_sections / "
     "sort_inner_use_path are called only under their configuration flags; (R11.6) nodes whose formatting is "
-    "ignored are emitted with their original text. Idempotence and re-parsability of the output are not decided.")
+    "ignored are emitted with their original text; (R11.7) a routine that rewrites a list of child nodes and selects, "
+    "drops, duplicates or re-parses nodes does so only under a has_only_whitespace_trivia guard that covers every "
+    "affected node: ranging over the whole rewritten list, or per node with the unguarded nodes kept as they are. "
+    "Idempotence and re-parsability of the output are not decided.")
 ASSUMPTIONS = ["LineBuilder::push_str / push_comment append their argument to the output",
                "the four skippable kinds are the optional tokens of the grammar (trailing comma, empty terminal, semicolon after a block-like statement, turbofish `::`)"]
 EXHAUSTIVE = True
@@ -238,6 +241,7 @@ def run(ctx):
                for x in fn.calls() if any(op_local(a) in fl for a in x.args)):
             ok = True
     ctx.ob("R11.6", "format_node:ignored-nodes-keep-text", ok, "a node with ignored formatting is emitted through get_text", fn.where())
+    _rewriters(ctx, F)
     _controls(ctx, F, sst)
 
 
@@ -256,3 +260,142 @@ def _controls(ctx, F, sst):
     m = Fn(d, sst.crate)
     ks = set(K for _, K, _ in kind_eq_tests(m))
     ctx.control("a fifth skippable terminal kind", n >= 1 and "TerminalPub" in ks)
+
+
+# ------------------------------------------------------------------------------------------------
+# R11.7 list rewriters
+
+SELECT_OPS = {"first", "last", "get", "nth", "take", "skip", "filter", "filter_map", "dedup", "dedup_by", "dedup_by_key", "truncate", "pop",
+              "remove", "swap_remove", "retain", "split_off", "step_by", "find", "position", "next_back", "take_while", "skip_while", "split_first",
+              "split_last", "chunks", "windows"}
+WRITE_OPS = {"drain", "clear", "truncate", "retain", "pop", "remove", "swap_remove", "dedup", "split_off"}
+
+
+def _root_chain(fn, op, depth=12):
+    """(root local, [call names]) following the operand back through copies, references, casts and the first argument
+    of the calls that produced it."""
+    names = []
+    l = op_local(op)
+    for _ in range(depth):
+        if l is None:
+            return None, names
+        if 1 <= l <= fn.argc:
+            return l, names
+        d = fn.single_def(l)
+        if not d:
+            return l, names
+        if d[0] == "call":
+            c = d[2]
+            names.append(c.name())
+            if not c.args:
+                return l, names
+            l = op_local(c.args[0])
+            continue
+        if d[0] == "stmt":
+            rv = d[3]
+            if rv[0] in ("use", "cast"):
+                o = rv[1] if rv[0] == "use" else rv[2]
+                nl = op_local(o)
+            elif rv[0] == "ref":
+                nl = place_local(rv[1])
+            else:
+                return l, names
+            if nl is None or nl == l:
+                return l, names
+            l = nl
+            continue
+        return l, names
+    return l, names
+
+
+def _rewriters(ctx, F):
+    from .lib import Call
+    n_rw = 0
+    for p, g in sorted(F.fns.items()):
+        if not g.body or g.crate != "cairo_lang_formatter" or g.kind == "Closure":
+            continue
+        params = [i for i in range(1, g.argc + 1) if re.match(r"^&(\'\w+ )?mut alloc::vec::Vec<cairo_lang_syntax::node::SyntaxNode<", g.local_ty(i) or "")]
+        if not params:
+            continue
+        P = params[0]
+        group = [g] + F.closures_of(g)
+        # does it rewrite the list?  (a mutating call on it, or an assignment through the reference)
+        writes = []
+        for c in g.calls():
+            if c.name() in WRITE_OPS and c.args:
+                root, _ = _root_chain(g, c.args[0])
+                if root == P:
+                    writes.append(c)
+        assigns = [(i, st) for i, _, st in g.stmts() if st[0] == "a" and not isinstance(st[1], int) and place_local(st[1]) == P and "*" in st[1][1]]
+        if not writes and not assigns:
+            continue
+        n_rw += 1
+        ctx.analysed(g)
+        first_write = min([c.bb for c in writes] + [i for i, _ in assigns])
+        # what it does to individual nodes
+        selecting = []
+        for h in group:
+            for c in h.calls():
+                if c.name() in SELECT_OPS and c.args and "SyntaxNode" in (h.local_ty(op_local(c.args[0]) or 0) or ""):
+                    selecting.append("%s (%s)" % (c.name(), c.where()))
+                if c.name() in ("parse_file", "parse_token_stream") and "Parser" in c.path:
+                    selecting.append("re-parse (%s)" % c.where())
+        key = "rewriter:%s" % fn_key(p)
+        if not selecting:
+            ctx.ob("R11.7", key, True, "rewrites the child list by moving whole nodes only (sort / extend / collect of complete collections; no element is "
+                   "selected, dropped, duplicated or re-parsed)", g.where())
+            continue
+        # (a) a guard over the whole list: any/all(has_only_whitespace_trivia) on the list itself, leaving before the first write
+        whole = None
+        for c in g.calls():
+            if c.name() not in ("any", "all") or len(c.args) < 2:
+                continue
+            fav = g.single_def(g.resolve_copy(op_local(c.args[1]))) if op_local(c.args[1]) is not None else None
+            clos = None
+            if fav and fav[0] == "stmt" and fav[3][0] == "agg" and fav[3][1] == "closure":
+                clos = F.fns.get(fav[3][2])
+            if clos is None or not any(x.name() == "has_only_whitespace_trivia" for x in clos.calls()):
+                continue
+            root, chain = _root_chain(g, c.args[0])
+            narrowed = [n for n in chain if n not in ("iter", "deref", "into_iter", "as_slice", "iter_mut", "deref_mut", "borrow", "as_ref")]
+            ok_dom = g.dominates(c.bb, first_write)
+            whole = (root == P and not narrowed and ok_dom, root, chain, c)
+            if whole[0]:
+                break
+        # (b) a guard per node: has_only_whitespace_trivia(node) whose false edge keeps the node and does not take it apart
+        per_node = None
+        for c in g.calls():
+            if c.name() != "has_only_whitespace_trivia" or c.target is None or len(c.args) < 2:
+                continue
+            node_root, _ = _root_chain(g, c.args[1])
+            sw = c.target
+            if g.blocks[sw]["t"][0] != "switch":
+                continue
+            f_succ = succ_for_value(g, sw, 0)
+            il = innermost_loop(g, c.bb)
+            avoid = {il[0]} if il is not None else set()
+            reach = g.reachable_blocks(f_succ, avoid=avoid) | {f_succ}
+            apart = [x for x in g.calls() if x.bb in reach and x.name() in ("from_syntax_node", "insert_path", "get_children", "descendants")
+                     and any(_root_chain(g, a)[0] == node_root for a in x.args)]
+            per_node = (not apart, c, [x.where() for x in apart][:2])
+            if per_node[0]:
+                break
+        if whole and whole[0]:
+            ctx.ob("R11.7", key, True, "selects / drops / duplicates nodes (%s) only after `%s(has_only_whitespace_trivia)` over the whole list it rewrites, "
+                   "before the first write" % (", ".join(selecting[:3]), whole[3].name()), whole[3].where())
+        elif per_node and per_node[0]:
+            ctx.ob("R11.7", key, True, "re-parses / selects nodes (%s) under a per-node has_only_whitespace_trivia test whose failing edge does not take the node "
+                   "apart in that iteration" % ", ".join(selecting[:3]), per_node[1].where())
+        else:
+            why = []
+            if whole:
+                why.append("the whitespace-trivia guard ranges over %s%s, not over the whole rewritten list" % (
+                    "local `%s`" % (g.local_name(whole[1]) or "_%s" % whole[1]) if whole[1] != P else "the list",
+                    " narrowed by %s" % whole[2] if whole[2] else ""))
+            if per_node:
+                why.append("a node that fails has_only_whitespace_trivia is still taken apart (%s)" % per_node[2])
+            if not why:
+                why.append("no has_only_whitespace_trivia guard covers the nodes")
+            ctx.ob("R11.7", key, False, "the routine selects / drops / duplicates / re-parses child nodes (%s) but %s: a comment attached to an affected "
+                   "node is lost or duplicated" % (", ".join(selecting[:3]), "; ".join(why)), g.where())
+    ctx.floor("routines rewriting a list of child nodes", n_rw, 3)
